@@ -96,6 +96,11 @@ CHECKS = {
    text="Exhaustive within the bound: bodies of <=2 (quick) / <=3 (thorough) of 9 item kinds x 17 mechanisms (partials with/without data, extensions, one/two layouts, layout under javascript, nested partial, contentFor/contentOf once, twice with different data, redefined, default block, undefined name, unused default, block helpers with caller's / own context, string-returning block helper) x 3 content types: 4.6k / 42k programs, each with its inlined equivalent where one exists. Real output must equal the model's for composed and inlined source (JavaScript escaping per character as Go's template.JSEscapeString).",
    note="Trusted: PlushSem.tla's composition rules (child scope, data, trusted result, layout recursion, contentFor closure in the defining scope). JS escaping is modelled per character class as the pinned Go toolchain does it.",
    design="§6 C17"),
+ "C18": dict(
+   technique="TLC explicit-state enumeration of layouts of canonical token lists (GenLayout.tla: every single-position variation exhaustively, seeded random full layouts by simulation) with SameTokens as invariant and the reference semantics' meaning of the canonical program as expectation; canonical and laid-out sources replayed into real plush.Render",
+   text="9 programs covering all statement kinds; every layout that differs from the canonical printing in exactly one position (separator inside a tag x {space, tab, newline, CR LF, two spaces, # comment, nothing next to a delimiter}; adjacent code tags x {keep, merge with newline / semicolon / space}; comment tag after a tag end): 1.5k layouts exhaustively, plus 300 (quick) / 6000 (thorough) seeded random layouts differing in every position. Real output of canonical and laid-out source must both equal the model's.",
+   note="The program set is fixed (9 programs); layouts never remove a separator between two tokens (the property's exception for - and . is therefore not exercised).",
+   design="§6 C18"),
 }
 
 NOT_YET = "check not built yet in this session (work in progress, see DESIGN.md §8)"
